@@ -136,15 +136,16 @@ ImplObs(ss, cs) ==
 (* Spec layer: property C34 *)
 
 \* all temporal constraints are strict end-before-start precedences between subtasks of T
-Qualitative(T, C) == \A c \in C : \E a \in T, b \in T : c = Prec(a, b)
+\* (i.e. \A c \in C : \E a, b \in T : c = Prec(a, b), written without the quantifier)
+Qualitative(T, C) == \A c \in C : c.l.c \in T /\ c.r.c \in T /\ c = Prec(c.l.c, c.r.c)
 Precs(C) == {<<c.l.c, c.r.c>> : c \in C}
 
-\* bijections T -> 1..|T| (positions in a linear ordering)
+\* bijections T -> 1..|T| (positions in a linear ordering), extended by 0 outside T
 RECURSIVE Positions(_)
 Positions(T) ==
    IF T = {} THEN {<<>>}
    ELSE UNION {{p @@ (t :> Cardinality(T)) : p \in Positions(T \ {t})} : t \in T}
-PositionsOf == TLCEval([T \in SUBSET Task |-> Positions(T)])
+PositionsOf == TLCEval([T \in SUBSET Task |-> {[t \in Task |-> IF t \in T THEN p[t] ELSE 0] : p \in Positions(T)}])
 
 \* the linear orderings of ALL subtasks that respect every precedence (a before b)
 LinExts(T, P) == {pos \in PositionsOf[T] : \A p \in P : pos[p[1]] < pos[p[2]]}
@@ -197,6 +198,9 @@ ZoneIsChain == InZone(SubtaskSet, TemporalSet) =>
 \* a precedence in the sense of the property is exactly what the scan accepts
 PrecAgree == \A c \in Range(cons) : Mentions(c) \subseteq Task =>
                 (ImplIsPrec(c) <=> \E a \in Task, b \in Task : c = Prec(a, b))
+\* the quantifier-free form of Qualitative is the quantified one
+QualAgree == Qualitative(SubtaskSet, TemporalSet) <=>
+                \A c \in TemporalSet : \E a \in SubtaskSet, b \in SubtaskSet : c = Prec(a, b)
 TypeOK == /\ Len(subs) <= N /\ Len(cons) <= MaxCons
           /\ \A i \in DOMAIN cons, j \in DOMAIN cons : i # j => cons[i] # cons[j]
 =============================================================================
